@@ -268,6 +268,7 @@ class _rewrite_captured_vars(ast.NodeTransformer):
         self._lookup_dict: Dict[str, Any] = dict(cv.globals)
         self._lookup_dict.update(cv.nonlocals)
         self._ignore_stack = []
+        self._resolving: List[Callable] = []
 
     def visit_Name(self, node: ast.Name) -> Any:
         if self.is_arg(node.id):
@@ -288,11 +289,24 @@ class _rewrite_captured_vars(ast.NodeTransformer):
                 # like that.
                 return as_literal(v)
             elif callable(v) and ((lm := safe_parse_wrapper(v)) is not None):
-                return lm
+                return self._resolve_in_own_scope(v, lm)
             else:
                 # If it is a local function, we need to parse it as an AST
                 return node
         return node
+
+    def _resolve_in_own_scope(self, f: Callable, lm: ast.Lambda) -> ast.Lambda:
+        "The variables a captured function captures itself are resolved where it was defined."
+        if any(f is g for g in self._resolving):
+            # A function that refers to itself: leave the reference as it is.
+            return lm
+        try:
+            cv = global_getclosurevars(f)
+        except TypeError:
+            return lm
+        resolver = _rewrite_captured_vars(cv)
+        resolver._resolving = self._resolving + [f]
+        return resolver.visit(lm)
 
     def visit_Attribute(self, node: ast.Attribute) -> Any:
         """If the value comes back as a class or other object that python
